@@ -448,6 +448,28 @@ pub fn c01_cases(rng: &mut Rng, tier: &str) -> (Vec<Case>, bool) {
         w.op("take");
         cases.push(case_from(w, vec!["err-then-idle".into(), "snap-caps".into()], "boundary-line".into(), true, b.to_string()));
     }
+    // a location saved while one immediate line was current (a FOR body, a GOSUB return address) and used when a later,
+    // SHORTER immediate line is current: the cursor then lies beyond the end of the line
+    let stale: &[&[&str]] = &[
+        &["FOR I = 1 TO 3 : PRINT I", "NEXT I", "NEXT I", "NEXT I", "PRINT I"],
+        &["100 STOP", "GOSUB 100", "RETURN", "PRINT 7"],
+        &["100 STOP", "X = 1 : Y = 2 : GOSUB 100 : PRINT \"tail\"", "RETURN", "CONT"],
+        &["FOR I = 1 TO 2 : FOR J = 1 TO 2 : PRINT I; J", "NEXT J", "NEXT I", "NEXT J", "NEXT I"],
+        &["10 NEXT K", "FOR K = 1 TO 3 : PRINT \"body\"; K", "GOTO 10", "GOTO 10", "GOTO 10"],
+        &["DEF FNA(X) = X", "100 STOP", "PRINT 1 : PRINT 2 : GOSUB 100", "?", "RETURN"],
+    ];
+    for seq in stale {
+        let mut w = Walk::new(false, false);
+        for t in seq.iter() {
+            w.start(t);
+            let mut nr = 0;
+            w.drive(&[], &mut nr, 12, true);
+            w.op("snap");
+        }
+        w.start("PRINT 7");
+        w.op("take");
+        cases.push(case_from(w, vec!["err-then-idle".into(), "snap-caps".into()], "stale-immediate-location".into(), true, seq.join(" | ")));
+    }
     // replies and DATA items may spell what no numeral can: nan, inf, -inf, 1e999 - then used as a loop bound, a step, a
     // subscript, a jump target
     for reply in ["nan", "inf", "-inf", "1e999", "NaN", "-nan", "infinity"] {
@@ -625,6 +647,44 @@ pub fn c16_cases(rng: &mut Rng, tier: &str) -> (Vec<Case>, bool) {
             cases.push(case_from(w, checks, "cap-from-the-prompt".into(), true, format!("stopped {} GOSUBs deep, then {}", depth, probe)));
         }
     }
+    // arrays whose cell count lies just around the cap of 10000, for every way of splitting it over two to four axes
+    {
+        let mut shapes: Vec<Vec<usize>> = vec![];
+        for a in [1usize, 2, 3, 6, 7, 9, 33, 99, 100, 101, 333, 2499, 3333, 4999, 9998, 9999] {
+            // b + 1 is the quotient 10000 / (a + 1) rounded down, up, and one more
+            let q = 10000 / (a + 1);
+            for b1 in [q.saturating_sub(1), q, q + 1, q + 2] {
+                if b1 >= 1 {
+                    shapes.push(vec![a, b1 - 1]);
+                }
+            }
+        }
+        shapes.push(vec![6, 6, 6, 28]);
+        shapes.push(vec![6, 6, 6, 29]);
+        shapes.push(vec![9, 9, 9, 9]);
+        shapes.push(vec![9, 9, 9, 10]);
+        shapes.push(vec![20, 20, 21]);
+        shapes.push(vec![20, 20, 22]);
+        for chunk in shapes.chunks(6) {
+            let mut w = Walk::new(false, false);
+            let mut checks: Vec<String> = vec!["snap-caps".into(), "err-then-idle".into()];
+            for (k, sh) in chunk.iter().enumerate() {
+                let name = ["A", "B$", "C", "D$", "E", "F"][k % 6];
+                let dims = sh.iter().map(|d| d.to_string()).collect::<Vec<_>>().join(",");
+                w.start(&format!("DIM {}({})", name, dims));
+                let pi = w.last();
+                w.op("snap");
+                // which of them must be refused is known
+                let cells: usize = sh.iter().map(|d| d + 1).product();
+                if cells > 10000 {
+                    checks.push(format!("reply-starts {} err_OutOfMemory.ArrayTooLarge", pi));
+                } else {
+                    checks.push(format!("reply-is {} ok", pi));
+                }
+            }
+            cases.push(case_from(w, checks, "array-cap-neighbourhood".into(), true, format!("{:?}", chunk)));
+        }
+    }
     let opts = GenOpts::default();
     for _ in 0..n {
         let steps = rng.range(10, 80);
@@ -651,6 +711,8 @@ pub fn c10_cases(rng: &mut Rng, tier: &str) -> (Vec<Case>, bool) {
         &["10 GOTO 40", "20 DATA 1, 2, 3", "30 READ A : END", "40 READ B : PRINT B"],
         &["10 READ A : PRINT A", "20 DATA 1", "30 DATA 2", "40 READ B : PRINT B"],
         &["10 DATA 7", "20 READ A : PRINT A", "30 READ B : PRINT B"],
+        &["10 FOR I = 1 TO 3", "20 INPUT A(I)", "30 NEXT I", "40 PRINT A(1); \"/\"; A(2); \"/\"; A(3)"],
+        &["10 INPUT P(1) : INPUT N$ : INPUT Q(2, 2)", "20 PRINT P(1); N$; Q(2, 2); P(2); A(3)"],
     ];
     for k in 0..n {
         let mut p = if k % 5 == 4 {
@@ -702,7 +764,7 @@ pub fn c10_cases(rng: &mut Rng, tier: &str) -> (Vec<Case>, bool) {
                 10 => {
                     // an INPUT (one target or - not part of this dialect - a list of targets) typed at the prompt or run from
                     // a scratch line, answered with too little, too much or the wrong kind, and abandoned with a break
-                    let stmt = rng.pick(&["INPUT A, B$", "INPUT A", "INPUT A$, B, C", "INPUT P(1), Q", "INPUT A$"]);
+                    let stmt = rng.pick(&["INPUT A, B$", "INPUT A", "INPUT A$, B, C", "INPUT P(1), Q", "INPUT A$", "INPUT P(2)", "INPUT A(3)", "INPUT Q(1, 1)", "INPUT P(INT(RND(1) * 3))"]);
                     if rng.chance(1, 2) {
                         w.start(stmt);
                     } else {
@@ -970,7 +1032,8 @@ pub fn c11_cases(rng: &mut Rng, tier: &str) -> (Vec<Case>, bool) {
             7 => (rng.pick(&["6 REM", "6 rem marker", "6  REM marker", "940 END", "960 RETURN"]).to_string(), true),
             0 => ("5 REM added".to_string(), true),
             1 => (format!("{} PRINT \"replaced\"", p.lines[rng.below(p.lines.len())].0), true),
-            2 => (format!("{}", p.lines[rng.below(p.lines.len())].0), true), // delete
+            // delete - half of the time the line the run last jumped to (the subroutine entry, the STOP line, the RETURN line)
+            2 => (if rng.chance(1, 2) { rng.pick(&["950", "951", "960", "940"]).to_string() } else { format!("{}", p.lines[rng.below(p.lines.len())].0) }, true),
             3 => ("2 DATA 999, 888".to_string(), true),
             _ => (format!("{} PRINT \"unterminated", p.lines[rng.below(p.lines.len())].0), false),
         };
@@ -988,7 +1051,12 @@ pub fn c11_cases(rng: &mut Rng, tier: &str) -> (Vec<Case>, bool) {
         let ran_line3 = w.replies.iter().any(|_| true);
         let _ = ran_line3;
         let probe = if direct == 1 && rng.chance(1, 2) { 7 } else if direct == 2 && rng.chance(1, 2) { 8 } else if no_data && rng.chance(2, 3) { 3 } else { rng.below(7) };
+        // after a deletion: a jump to the line that is gone must say so (also when the run had last jumped exactly there)
+        let deleted: Option<String> = if edit_kind == 2 { Some(edit.trim().to_string()) } else { None };
+        let jump_probe = deleted.as_ref().map(|n| format!("{} {}", rng.pick(&["GOTO", "GOSUB", "IF 1 THEN"]), n));
+        let probe = if jump_probe.is_some() && rng.chance(1, 2) { 9 } else { probe };
         let probe_text = match probe {
+            9 => jump_probe.as_deref().unwrap(),
             0 => "CONT",
             1 => "RETURN",
             2 => "NEXT L9",
@@ -1014,6 +1082,7 @@ pub fn c11_cases(rng: &mut Rng, tier: &str) -> (Vec<Case>, bool) {
         let ti = w.last();
         if ok {
             match probe {
+                9 => checks.push(format!("reply-starts {} err_UndefinedStatement", pi)),
                 0 => checks.push(format!("reply-starts {} err_CannotContinue", pi)),
                 1 => checks.push(format!("reply-starts {} err_ReturnWithoutGosub", pi)),
                 2 => checks.push(format!("reply-starts {} err_NextWithoutFor", pi)),
@@ -1137,10 +1206,11 @@ pub fn c17_cases(rng: &mut Rng, tier: &str) -> (Vec<Case>, bool) {
             let a = w.ops.len();
             if via_command {
                 w.op(&format!("new {} 0", ww as u8));
+                // the command word in any letter case
                 if tt {
-                    w.start("TRACE");
+                    w.start(rng.pick(&["TRACE", "trace", "Trace", "tRaCe"]));
                 } else {
-                    w.start("NOTRACE");
+                    w.start(rng.pick(&["NOTRACE", "notrace", "Notrace", "nOtrace", "NoTrace", "noTRACE"]));
                 }
             } else {
                 w.op(&format!("new {} {}", ww as u8, tt as u8));
@@ -1162,6 +1232,18 @@ pub fn c17_cases(rng: &mut Rng, tier: &str) -> (Vec<Case>, bool) {
         for k in 1..4 {
             checks.push(format!("transcript-eq {}-{} {}-{} drop=WT", ranges[0].0, ranges[0].1, ranges[k].0, ranges[k].1));
             checks.push(format!("snap-eq {} {} except=warn,trace,reads", finals[0], finals[k]));
+        }
+        // a configuration is what it was set to - through the API or through the TRACE / NOTRACE commands in any letter
+        // case: no trace record where tracing is off, no warning where warnings are off, and the flags read back
+        for (k, (ww, tt)) in [(false, false), (true, false), (false, true), (true, true)].iter().enumerate() {
+            if !tt {
+                checks.push(format!("range-lacks {}-{} T", ranges[k].0, ranges[k].1));
+            }
+            if !ww {
+                checks.push(format!("range-lacks {}-{} W", ranges[k].0, ranges[k].1));
+            }
+            checks.push(format!("snap-field-is {} trace {}", finals[k], *tt as u8));
+            checks.push(format!("snap-field-is {} warn {}", finals[k], *ww as u8));
         }
         // trace records name the line being executed; a warning names an undeclared variable/array use
         checks.push(format!("trace-lines-exist {}-{}", ranges[3].0, ranges[3].1));
@@ -1266,6 +1348,8 @@ pub fn c09_cases(rng: &mut Rng, tier: &str) -> (Vec<Case>, bool) {
         (&["10 GOSUB 100", "20 END", "100 STOP", "110 RETURN"], &["RUN", "A = 1 : A = A + 1 : A = A + 1 : PRINT A", "FOR K = 1 TO 6 : NEXT K : PRINT K"], 14),
         (&["10 IF 1 THEN 20", "20 IF 1 THEN 30", "30 IF 1 THEN 40", "40 IF 1 THEN 50", "50 PRINT 5"], &["RUN"], 5),
         (&["10 GOTO 20", "20 DATA 1", "21 DATA 2", "22 DATA 3", "23 DATA 4", "30 GOTO 40", "40 PRINT 4"], &["RUN"], 7),
+        (&["10 GOSUB 100", "20 PRINT \"M\"", "30 END", "100 GOSUB 200 : RETURN", "200 GOSUB 300 : RETURN", "300 RETURN"], &["RUN"], 10),
+        (&["10 GOSUB 100 : GOSUB 100", "20 END", "100 GOSUB 200 : RETURN", "200 RETURN"], &["RUN"], 12),
     ];
     for (prog, typed, want) in counted {
         for (ww, tt) in [(false, false), (false, true)] {
@@ -1320,6 +1404,82 @@ const PURE_INSPECTIONS: &[&str] = &[
     // program defines, with other parameter names; END reached by an immediate line
     "DEF FNA(ZZ) = 1", "DEF FNR(Q) = 5", "DEF FNS(A, B) = 1", "DEF FNB(X1) = X1", "END", "IF 1 THEN END",
 ];
+
+/// assigning at a STOP == the assignment written in place of the STOP (the value assigned at the prompt, or typed in as the
+/// reply to an INPUT that is run at the prompt), then CONT
+pub fn assign_at_stop_cases(rng: &mut Rng, m: usize, force_input: bool, cases: &mut Vec<Case>) {
+    for _ in 0..m {
+        let var = rng.pick(&["X", "N", "A$", "P(2)"]);
+        let val = if var.ends_with('$') { "\"set\"".to_string() } else { rng.pick(&["5", "0", "-1", "X+1"]).to_string() };
+        let assign = format!("{} = {}", var, val);
+        let body = rng.pick(&["PRINT X; N; A$; P(2)", "FOR I = 1 TO N : PRINT I : NEXT I", "IF X > 2 THEN PRINT \"big\" ELSE PRINT \"small\""]);
+        // the STOP on a line of its own, or followed on ITS line by the statements that use the value (also an IF .. ELSE,
+        // also inside a subroutine); the value is assigned at the prompt - or typed in as the reply to an INPUT run at the prompt
+        let same_line = rng.chance(1, 2);
+        let in_sub = rng.chance(1, 4);
+        let mk = |mid: &str| {
+            let mut v = vec!["10 X = 2 : N = 2".to_string(), "20 PRINT \"before\"".to_string()];
+            if in_sub {
+                v.push("25 GOSUB 30 : PRINT \"back\" : GOTO 50".to_string());
+            }
+            if same_line {
+                v.push(format!("30 {} : {}", mid, body));
+            } else {
+                v.push(format!("30 {}", mid));
+                v.push(format!("40 {}", body));
+            }
+            if in_sub {
+                v.push("45 RETURN".to_string());
+            }
+            v.push("50 PRINT \"after\"".to_string());
+            v
+        };
+        let by_input = !val.contains('X') && (force_input || rng.chance(1, 3));
+        let mut w = Walk::new(false, false);
+        for l in mk("STOP") {
+            w.start(&l);
+        }
+        let a1 = w.ops.len();
+        w.start("RUN");
+        let mut nr = 0;
+        w.drive(&[], &mut nr, 100, false);
+        let i0 = w.ops.len();
+        if by_input {
+            w.start(&format!("INPUT {}", var));
+            let mut guard = 0;
+            while w.state() == "Running" && guard < 5 {
+                w.op("cont");
+                guard += 1;
+            }
+            if w.state() == "AwaitingInput" {
+                w.reply(val.trim_matches('"'));
+                let mut guard = 0;
+                while w.state() == "Running" && guard < 5 {
+                    w.op("cont");
+                    guard += 1;
+                }
+            }
+        } else {
+            w.start(&assign);
+        }
+        let ig1 = (i0..=w.last()).map(|x| x.to_string()).collect::<Vec<_>>().join(",");
+        w.op("take");
+        w.start("CONT");
+        w.drive(&[], &mut nr, 100, false);
+        w.state();
+        let a2 = w.last();
+        w.op("new 0 0");
+        for l in mk(&assign) {
+            w.start(&l);
+        }
+        let b1 = w.ops.len();
+        w.start("RUN");
+        w.drive(&[], &mut nr, 100, false);
+        w.state();
+        let b2 = w.last();
+        cases.push(case_from(w, vec![format!("transcript-eq {}-{} {}-{} ignore={} noreply", a1, a2, b1, b2, ig1)], "assign-at-stop".into(), true, format!("{} at STOP vs in place; then {}", assign, body)));
+    }
+}
 
 /// break + CONT at random turn boundaries, with side-effect-free inspection, vs the uninterrupted run
 pub fn c07_cases(rng: &mut Rng, tier: &str) -> (Vec<Case>, bool) {
@@ -1435,40 +1595,7 @@ pub fn c07_cases(rng: &mut Rng, tier: &str) -> (Vec<Case>, bool) {
         let tag = format!("{}breaks{}:{}", if n_breaks == 0 { "no-" } else { "" }, if inspected { "+inspect" } else { "" }, feature_tag(&p));
         cases.push(case_from(w, checks, tag, n_breaks > 0, p.text().replace('\n', " | ")));
     }
-    // assigning at a STOP == the assignment written in place of the STOP
-    let m = if tier == "thorough" { 600 } else { 80 };
-    for _ in 0..m {
-        let var = rng.pick(&["X", "N", "A$", "P(2)"]);
-        let val = if var.ends_with('$') { "\"set\"".to_string() } else { rng.pick(&["5", "0", "-1", "X+1"]).to_string() };
-        let assign = format!("{} = {}", var, val);
-        let body = rng.pick(&["PRINT X; N; A$; P(2)", "FOR I = 1 TO N : PRINT I : NEXT I", "IF X > 2 THEN PRINT \"big\" ELSE PRINT \"small\""]);
-        let mk = |mid: &str| vec!["10 X = 2 : N = 2".to_string(), "20 PRINT \"before\"".to_string(), format!("30 {}", mid), format!("40 {}", body), "50 PRINT \"after\"".to_string()];
-        let mut w = Walk::new(false, false);
-        for l in mk("STOP") {
-            w.start(&l);
-        }
-        let a1 = w.ops.len();
-        w.start("RUN");
-        let mut nr = 0;
-        w.drive(&[], &mut nr, 100, false);
-        w.start(&assign);
-        let ig1 = w.last();
-        w.op("take");
-        w.start("CONT");
-        w.drive(&[], &mut nr, 100, false);
-        w.state();
-        let a2 = w.last();
-        w.op("new 0 0");
-        for l in mk(&assign) {
-            w.start(&l);
-        }
-        let b1 = w.ops.len();
-        w.start("RUN");
-        w.drive(&[], &mut nr, 100, false);
-        w.state();
-        let b2 = w.last();
-        cases.push(case_from(w, vec![format!("transcript-eq {}-{} {}-{} ignore={}", a1, a2, b1, b2, ig1)], "assign-at-stop".into(), true, format!("{} at STOP vs in place; then {}", assign, body)));
-    }
+    assign_at_stop_cases(rng, if tier == "thorough" { 600 } else { 80 }, false, &mut cases);
     (cases, false)
 }
 
@@ -1679,5 +1806,7 @@ pub fn c08_cases(rng: &mut Rng, tier: &str) -> (Vec<Case>, bool) {
             }
         }
     }
+    // an INPUT run at the prompt of a stopped program stores its reply like an assignment and leaves the program resumable
+    assign_at_stop_cases(rng, if tier == "thorough" { 200 } else { 30 }, true, &mut cases);
     (cases, false)
 }
